@@ -12,6 +12,7 @@ package main
 
 import (
 	"bufio"
+	"bytes"
 	"encoding/json"
 	"flag"
 	"fmt"
@@ -65,7 +66,7 @@ func worker(in, out string, skip, only int, timeoutMs, memMiB int) {
 		fatal("%v", err)
 	}
 	w := bufio.NewWriterSize(of, 1<<20)
-	m := &machine{out: json.NewEncoder(w)}
+	m := &machine{out: json.NewEncoder(w), flush: w.Flush}
 	debug.SetGCPercent(200)
 	curProg.Store(-1)
 	// monitor: memory ceiling and per-program watchdog; exits the process, the supervisor takes over
@@ -78,13 +79,11 @@ func worker(in, out string, skip, only int, timeoutMs, memMiB int) {
 			}
 			el := time.Duration(time.Now().UnixNano() - curStart.Load())
 			if el > time.Duration(timeoutMs)*time.Millisecond {
-				fmt.Fprintf(os.Stderr, "ABORT time %d\n", curProg.Load())
-				os.Exit(3)
+				m.abort("time", 3)
 			}
 			runtime.ReadMemStats(&ms)
 			if ms.HeapAlloc > uint64(memMiB)<<20 {
-				fmt.Fprintf(os.Stderr, "ABORT mem %d\n", curProg.Load())
-				os.Exit(4)
+				m.abort("mem", 4)
 			}
 		}
 	}()
@@ -183,15 +182,21 @@ func runShard(self, in, out string, nprogs, timeoutMs, memMiB int) int {
 			if ee, ok := err2.(*exec.ExitError); ok {
 				code2 = ee.ExitCode()
 			}
-			var pr program
-			progs := readPrograms(in)
-			if bad < len(progs) {
-				json.Unmarshal(progs[bad], &pr)
+			cb, _ := os.ReadFile(tmp)
+			cb = completeLines(cb)
+			if bytes.Contains(cb, []byte("\"ev\":\"Abort\"")) {
+				of.Write(cb) // the worker recorded what it was doing when the watchdog fired
+			} else {
+				var pr program
+				progs := readPrograms(in)
+				if bad < len(progs) {
+					json.Unmarshal(progs[bad], &pr)
+				}
+				rb, _ := json.Marshal(obj{"ev": "Reset", "prog": pr.ID, "fam": pr.Fam})
+				of.Write(rb)
+				of.Write([]byte("\n"))
+				fmt.Fprintf(of, "{\"ev\":\"Abort\",\"why\":%q,\"op\":\"?\",\"idx\":%d,\"confirm\":%d}\n", why, bad, code2)
 			}
-			rb, _ := json.Marshal(obj{"ev": "Reset", "prog": pr.ID, "fam": pr.Fam})
-			of.Write(rb)
-			of.Write([]byte("\n"))
-			fmt.Fprintf(of, "{\"ev\":\"Abort\",\"why\":%q,\"idx\":%d,\"confirm\":%d}\n", why, bad, code2)
 			fmt.Fprintf(of, "{\"ev\":\"Done\",\"idx\":%d}\n", bad)
 			aborts++
 		}
